@@ -45,13 +45,21 @@ const (
 	// long-session operators (TestLongSessions only)
 	opReplayAt = opKinds     // a recorded copy of frame k is inserted before frame k+d
 	opSwapAt   = opKinds + 1 // frames k and k+d are exchanged
+
+	// opFeedReplay: frames before position i are genuine; then one damaged unit (a frame whose payload chunk has a
+	// flipped bit, or an 18-byte garbage length chunk, or a frame whose length chunk has a flipped bit); then the
+	// attacker keeps feeding the reader a byte-exact recording: this session's own stream from its very first byte,
+	// or from its first data chunk, or another session's stream (same key) from its first byte.
+	opFeedReplay = opKinds + 2
 )
+
+var feedSources = [...]string{"own-stream-from-offset-0", "own-stream-from-first-data-chunk", "other-session-same-key-from-offset-0"}
 
 // replayDistances: distances in frames (= chunks = two seals each) at which a nonce counter that loses a carry
 // or wraps early would repeat: 128 frames = 256 seals, 255 frames = 510 seals, 32768 frames = 65536 seals, ...
 var replayDistances = []int{1, 2, 127, 128, 254, 255, 256, 510, 0 /* random */, 32768, 32640}
 
-var opNames = [...]string{"flip", "cut", "drop", "dup", "swap", "splice-frame", "splice-head", "swap-stream", "insert", "delete", "append", "garbage-chunk", "overwrite", "replay-at", "swap-at"}
+var opNames = [...]string{"flip", "cut", "drop", "dup", "swap", "splice-frame", "splice-head", "swap-stream", "insert", "delete", "append", "garbage-chunk", "overwrite", "replay-at", "swap-at", "feed-replay"}
 
 // opSpec is the abstract description of one tamper; offsets are resolved against the actual
 // frames of the session (whose lengths depend on the client's random padding).
@@ -191,7 +199,7 @@ func drain(c io.Reader, path, bufSize int) (d drained) {
 		}
 	}
 	buf := make([]byte, bufSize)
-	for i := 0; i < 2; i++ {
+	for i := 0; i < 4; i++ { // the application keeps reading although a Read failed
 		n, _ := c.Read(buf)
 		d.post = append(d.post, buf[:n]...)
 	}
@@ -467,6 +475,34 @@ func apply(w *sstcp.World, dir int, op opSpec, seed uint64, x, y [][]byte) (t []
 		}
 		t[0] = append(append([]byte(nil), x[0][:k]...), y[0][k:]...)
 		return t, regionAt(w, dir, x, 0, k), true
+	case opFeedReplay:
+		src := op.RegionSel % len(feedSources)
+		if src == 2 && len(y) == 0 {
+			return nil, "", false
+		}
+		i := 1 + op.FrameSel%len(x) // 1..len(x): at least the first frame is delivered untouched
+		out := append([][]byte(nil), t[:i]...)
+		switch dmg := op.N % 3; {
+		case dmg == 0 && i < len(x) && len(x[i]) > sstcp.LenChunkLen+1: // whole frame consumed: the recording that follows is aligned
+			f := append([]byte(nil), x[i]...)
+			f[sstcp.LenChunkLen+op.OffSel%(len(f)-sstcp.LenChunkLen)] ^= 1 << (uint(op.Bit) % 8)
+			out = append(out, f)
+		case dmg == 2 && i < len(x): // only the length chunk is consumed: what follows is misaligned
+			f := append([]byte(nil), x[i]...)
+			f[op.OffSel%sstcp.LenChunkLen] ^= 1 << (uint(op.Bit) % 8)
+			out = append(out, f)
+		default:
+			out = append(out, sstcp.Bytes(sstcp.LenChunkLen, seed^0xFEED))
+		}
+		switch src {
+		case 0:
+			out = append(out, cloneFrames(x)...)
+		case 1:
+			out = append(out, cloneFrames(x[1:])...)
+		default:
+			out = append(out, cloneFrames(y)...)
+		}
+		return out, feedSources[src], true
 	case opReplayAt, opSwapAt:
 		// frames 1.. are data chunks (frame 0 is the handshake / response header + first chunk)
 		n := len(x)
@@ -669,6 +705,9 @@ func world(c sstcp.Class, prefixSeed, keySeed uint64) (*sstcp.World, error) {
 // runCase executes one plan against the real client and server and judges it.
 func runCase(p *casePlan) (r result) {
 	r.detail = map[string]any{}
+	if p.Op.Kind == opFeedReplay {
+		p.Op.Foreign = false // the recording is always one made under the key in use
+	}
 	w, err := world(p.Class, p.Seed, p.Seed^0xA5A5)
 	if err != nil {
 		r.fail("harness", "world: %v", err)
@@ -682,7 +721,9 @@ func runCase(p *casePlan) (r result) {
 			return
 		}
 	}
-	needB := p.Op.Kind == opSpliceFrame || p.Op.Kind == opSpliceHead || p.Op.Kind == opSwapStream
+	needB := p.Op.Kind == opSpliceFrame || p.Op.Kind == opSpliceHead || p.Op.Kind == opSwapStream ||
+		(p.Op.Kind == opFeedReplay && p.Op.RegionSel%len(feedSources) == 2)
+
 	server := w.NewServer()
 	dirName := [...]string{"c2s", "s2c"}[p.Dir]
 	opName := opNames[p.Op.Kind]
@@ -822,6 +863,9 @@ func runCase(p *casePlan) (r result) {
 				r.fail("initial-payload-length", "request carries %d initial payload bytes, the client put %d into the handshake", len(ss.payload), units[1].app)
 			}
 			judgeData(&r, "server", got, a.app, units, sRelayed, tRelayed, int(a.link.S.DeliveredToMe()))
+			if p.Op.Kind == opFeedReplay && got.err != nil && !isEOF(got.err) {
+				r.label("server-fed-replayed-request-after-auth-failure")
+			}
 		default:
 			if fb >= f0 {
 				r.fail("genuine-handshake-refused", "untouched handshake (first altered offset %d >= %d) refused: %v", fb, f0, ss.err)
@@ -902,6 +946,10 @@ func runCase(p *casePlan) (r result) {
 	r.detail["first_altered_offset"] = firstDiff(tG, sG)
 	r.detail["client_consumed"] = consumed
 	judgeData(&r, "client", d, appS, units, sG, tG, consumed)
+	if p.Op.Kind == opFeedReplay && d.err != nil && !isEOF(d.err) && consumed > firstDiff(tG, sG) {
+		// a Read failed on the damaged unit and the application read on while the transport kept delivering a recording
+		r.label("client-fed-replayed-response-after-auth-failure", "client-fed-"+region)
+	}
 	outcome := "error"
 	if isEOF(d.err) {
 		outcome = "eof"
